@@ -1,6 +1,8 @@
 import SqlgrepModel.Sexp
 import SqlgrepModel.Model.DecFloat
 import SqlgrepModel.Model.ParseLit
+import SqlgrepModel.Drivers.Extract
+import SqlgrepModel.Drivers.JsonDocD
 /-
 Cross-check of shipped library facts against the Lean functions that *predict* them. Every case line is scanned
 before it is dispatched; a shipped fact that differs from the computed one makes the driver answer
@@ -12,7 +14,9 @@ disagreement, with the case as replay). Checked:
 * `NaiveDateTime::parse_from_str(_, "%Y-%m-%d %H:%M:%S")` facts — `(oracles … (tsparse (xTEXT (d s f)|none)…) …)` —
   against `Lit.parseTimestampLit`;
 * the serde_json rendering shipped for a finite REAL — `(reals (BITS xFIXED2 xJSON)…)` and the table of `print`
-  cases — must parse back (`parseF64N`) to the same bits (round trip; the rendering itself stays an oracle).
+  cases — must parse back (`parseF64N`) to the same bits (round trip; the rendering itself stays an oracle);
+* the `serde_json::from_str::<Value>` document shipped for a line — `(json J)` / `notjson` in `extract` cases and in the
+  `(lines (l xLINE … FACT)…)` section of `e2e` cases — against `JsonDoc.docOfLine` of the line's bytes.
 -/
 namespace Sqlgrep.Drivers.FactCheck
 open Sqlgrep
@@ -82,6 +86,37 @@ def checkRealEntry : Sexp → Option String
     | _, _ => none
   | _ => none
 
+/-- the shipped document of a line against the computed one -/
+def docMismatch (line : List Nat) (fact : Sexp) : Option String :=
+  let shipped : Option (Option Json) :=
+    match fact with
+    | .atom "notjson" => some none
+    | .list [.atom "json", j] => (Drivers.Extract.jsonOfSexp j).map some
+    | _ => none            -- `nojson` (not needed), `compute` (not shipped): nothing to compare
+  match shipped with
+  | none => none
+  | some sh =>
+    let computed := JsonDoc.docOfLine line
+    if Drivers.JsonDocD.docWire computed == Drivers.JsonDocD.docWire sh then none
+    else some s!"fact-mismatch json {Sexp.showBytes line} shipped={Drivers.JsonDocD.docWire sh} computed={Drivers.JsonDocD.docWire computed}"
+
+/-- `(l xLINE (caps…) (splits…) FACT)` -/
+def checkLineEntry : Sexp → Option String
+  | .list [.atom "l", line, _, _, fact] => line.bytes?.bind (fun l => docMismatch l fact)
+  | _ => none
+
+/-- `extract … (line xHEX) … FACT …`: the line and the document fact are two of the arguments -/
+def checkExtractCase (args : List Sexp) : Option String :=
+  let line? := args.findSome? fun
+    | .list [.atom "line", l] => l.bytes?
+    | _ => none
+  match line? with
+  | some line => firstSome args (fun a => match a with
+      | .atom "notjson" => docMismatch line a
+      | .list [.atom "json", _] => docMismatch line a
+      | _ => none)
+  | none => none
+
 /-- a tagged top-level section -/
 def checkSection : Sexp → Option String
   | .list (.atom "oracles" :: parts) =>
@@ -91,6 +126,7 @@ def checkSection : Sexp → Option String
       | _ => none
   | .list (.atom "f64" :: xs) => firstSome xs (checkF64Entry "f64")
   | .list (.atom "reals" :: xs) => firstSome xs checkRealEntry
+  | .list (.atom "lines" :: xs) => firstSome xs checkLineEntry
   | _ => none
 
 def tableAt (args : List Sexp) (i : Nat) : List Sexp :=
@@ -104,6 +140,7 @@ def checkPositional (kind : String) (args : List Sexp) : Option String :=
   | "tok" => firstSome (tableAt args 2) checkNumEntry
   | "e2e" => firstSome (tableAt args 7) checkNumEntry
   | "print" => firstSome (tableAt args 3) checkRealEntry
+  | "extract" => checkExtractCase args
   | _ => none
 
 def check (kind : String) (args : List Sexp) : Option String :=
